@@ -45,12 +45,27 @@ def scenario_var_collision(v0, v1):
     return [("prog", p0), ("act", call), ("prog", p1), ("act", call)]
 
 
+def scenario_plain_call_default():
+    """F30: a plain call passes an explicit literal to a parameter that has a default; the callee keeps something that
+    depends on it; the literal is then edited."""
+    def mk(v):
+        return {"pkg": "vpt", "ext_helpers": {}, "root": ("m0", "root"), "modules": {"m0": {"vars": {}, "funcs": [
+            {"name": "h", "params": [{"name": "a", "default": None}], "annot": None, "salt": "h0", "stmts": [], "reads": []},
+            {"name": "g", "params": [{"name": "a", "default": i_(3)}], "annot": None, "salt": "g0", "reads": [],
+             "stmts": [{"k": "keep", "path": "/p", "callee": ("m0", "h"), "pos": [["param", 0]], "kw": [], "layout": "single"}]},
+            {"name": "root", "params": [], "annot": None, "salt": "r0", "reads": [],
+             "stmts": [{"k": "call", "callee": ("m0", "g"), "args": [["lit", i_(v)]]}]}]}}}
+    call = {"a": "call", "mod": "m0", "fn": "root", "style": "eval", "pos": [], "kw": []}
+    return [("prog", mk(5)), ("act", call), ("prog", mk(7)), ("act", call), ("prog", mk(3)), ("act", call), ("prog", mk(5)), ("act", call)]
+
+
 def scenario_var_edit(v0, v1):
     """a tracked variable of a scalar type changes (bool / None are tracked since fix F18)"""
     return scenario_var_collision(v0, v1)
 
 
 SCENARIOS = [
+    ("plain-call-argument-for-defaulted-parameter", scenario_plain_call_default),
     ("var-edit:bool-flag", lambda: scenario_var_edit(["bool", True], ["bool", False])),
     ("var-edit:none-to-int", lambda: scenario_var_edit(["none"], i_(5))),
     ("var-edit:dict-entries-reordered", lambda: scenario_var_edit(["dict", [[s_("a"), i_(1)], [s_("b"), i_(2)]]], ["dict", [[s_("b"), i_(2)], [s_("a"), i_(1)]]])),
